@@ -6,6 +6,7 @@ import Mp.CueFunc
 import Mp.Tree
 import Mp.CueWalk
 import Mp.CueAst
+import Mp.CueAstF
 /-! Line-protocol handlers of the model driver (core-only: links as an executable). -/
 open Lean
 namespace Mp
@@ -193,7 +194,11 @@ def handleCue (line : String) : String :=
           -- the validator on the operation itself (Mp/CueAst.lean) where the query is of the shape it covers; otherwise the walk alone
           (match verdictOf (vTop root bl t) with
            | some v => v
-           | none => if unavailable (bl.map (·.toUTF8.toList)) t then "REJ blocked" else "UNMODELLED")
+           | none =>
+             -- operations with filters and `@` arguments: the same validator with the cue path threaded (Mp/CueAstF.lean)
+             match verdictF root bl t with
+             | some v => v
+             | none => if unavailable (bl.map (·.toUTF8.toList)) t then "REJ blocked" else "UNMODELLED")
         | .op _, none => "ERR"
         | _, _ => "UNMODELLED"
     else
